@@ -254,6 +254,12 @@ type sub struct {
 	finished bool  // the harness has judged the end of this stream
 	sawRm    bool  // a target was removed while this ("*") subscriber was attached
 	nprobe   int
+	// POLL subscribers: rounds answered so far, index of the first response of
+	// the next round, and whether its target was removed since the last round.
+	Poll    bool
+	rounds  int
+	roundAt int
+	rmSince bool
 }
 
 func (s *sub) ended() bool {
@@ -877,6 +883,20 @@ func (h *harness) checkRemove(x string, pre, post map[string]*tsnap, fe []*pb.No
 		if s.Target != x {
 			continue
 		}
+		if s.Poll {
+			// The next trigger has to end it; it is sent now or, by seed, later
+			// in the history (possibly after the target was added again).
+			s.rmSince = true
+			if h.rng.Intn(2) == 0 {
+				h.pollOnce(s, post)
+			} else {
+				h.count("poll_trigger_after_remove_deferred", 1)
+			}
+			if h.failed || h.aborted {
+				return
+			}
+			continue
+		}
 		h.judgeRemovedStream(s, x)
 		if h.failed || h.aborted {
 			return
@@ -975,18 +995,21 @@ func (h *harness) checkFresh(x string, post map[string]*tsnap, fe []*pb.Notifica
 
 // ---- subscribers: attach, end of trial ------------------------------------------
 
-func (h *harness) request(target string, sh subShape) *pb.SubscribeRequest {
+func (h *harness) request(target string, sh subShape, poll bool) *pb.SubscribeRequest {
 	sl := &pb.SubscriptionList{Prefix: &pb.Path{Target: target, Origin: sh.Origin}, Mode: pb.SubscriptionList_STREAM}
+	if poll {
+		sl.Mode = pb.SubscriptionList_POLL
+	}
 	for _, p := range sh.Paths {
 		sl.Subscription = append(sl.Subscription, &pb.Subscription{Path: gen.Path(false, p...)})
 	}
 	return &pb.SubscribeRequest{Request: &pb.SubscribeRequest_Subscribe{Subscribe: sl}}
 }
 
-func (h *harness) start(target string, sh subShape) *sub {
-	s := &sub{ID: len(h.subs), Target: target, Shape: sh, done: make(chan struct{})}
+func (h *harness) start(target string, sh subShape, poll bool) *sub {
+	s := &sub{ID: len(h.subs), Target: target, Shape: sh, Poll: poll, done: make(chan struct{})}
 	s.st = vlib.NewStream(context.Background(), "c14")
-	s.st.Push(h.request(target, sh))
+	s.st.Push(h.request(target, sh, poll))
 	go func() {
 		s.err = h.srv.Subscribe(s.st)
 		close(s.done)
@@ -994,16 +1017,21 @@ func (h *harness) start(target string, sh subShape) *sub {
 	return s
 }
 
-func (h *harness) attach(target string, sh subShape) {
+func (h *harness) attach(target string, sh subShape, poll bool) {
 	if target != "*" && !h.present[target] {
 		h.subscribeUnknown(target)
 		return
 	}
-	s := h.start(target, sh)
+	s := h.start(target, sh, poll)
 	h.subs = append(h.subs, s)
 	h.count("subscribers_attached", 1)
 	if target == "*" {
 		h.count("subscribers_attached_star", 1)
+	}
+	if poll {
+		h.count("subscribers_attached_poll", 1)
+		h.pollAttached(s)
+		return
 	}
 	// The history continues once the initial snapshot has been delivered
 	// (the ordering of walk and live updates is C04's subject, not this one's).
@@ -1022,7 +1050,7 @@ func (h *harness) subscribeUnknown(x string) {
 		h.fail("remove-still-known", fmt.Sprintf("HasTarget(%q) is true for a target that is not in the cache", x))
 		return
 	}
-	s := h.start(x, subShapes[0])
+	s := h.start(x, subShapes[0], h.rng.Intn(4) == 0)
 	defer s.st.Cancel()
 	ctx, cancel := context.WithTimeout(context.Background(), watchdog)
 	defer cancel()
@@ -1071,6 +1099,14 @@ func (h *harness) finish() {
 	}
 	for _, s := range h.subs {
 		if s.finished {
+			continue
+		}
+		if s.Poll {
+			h.pollOnce(s, final)
+			if h.failed || h.aborted {
+				return
+			}
+			s.finished = true
 			continue
 		}
 		s.finished = true
@@ -1213,7 +1249,7 @@ func (h *harness) run(nsteps int) {
 		st := step{Clock: now()}
 		var op func()
 		switch {
-		case x < 8 && len(h.subs) < 5:
+		case x < 8 && len(h.subs) < 6:
 			st.Kind = "subscribe"
 			st.Target = "*"
 			if rng.Intn(5) < 3 {
@@ -1221,9 +1257,20 @@ func (h *harness) run(nsteps int) {
 			}
 			sh := subShapes[rng.Intn(len(subShapes))]
 			st.Arg = sh.Name
+			poll := rng.Intn(3) == 0
+			if poll {
+				st.Kind = "subscribe-poll"
+			}
 			h.steps = append(h.steps, st)
-			h.count("op_subscribe", 1)
-			h.attach(st.Target, sh)
+			h.count("op_"+st.Kind, 1)
+			h.attach(st.Target, sh, poll)
+			continue
+		case x < 12 && h.openPoll() != nil:
+			s := h.openPoll()
+			st.Kind, st.Target, st.Arg = "poll", s.Target, fmt.Sprintf("sub%d", s.ID)
+			h.steps = append(h.steps, st)
+			h.count("op_poll", 1)
+			h.pollOnce(s, h.cur)
 			continue
 		case x < 46:
 			st.Kind, st.Target = "update", h.pickTarget(true)
@@ -1271,7 +1318,7 @@ func (h *harness) run(nsteps int) {
 			// Prefer a target that has a live single-target subscriber.
 			if rng.Intn(2) == 0 {
 				for _, s := range h.subs {
-					if !s.finished && s.Target != "*" && h.present[s.Target] {
+					if !s.finished && s.Target != "*" && h.present[s.Target] && (!s.Poll || rng.Intn(2) == 0) {
 						st.Target = s.Target
 						break
 					}
@@ -1487,8 +1534,8 @@ func main() {
 	vlib.Main(&vlib.Spec{
 		ID: "C14",
 		Rule: "seeded histories of 40 (thorough 60) operations — update / delete (exact, subtree, wildcard) / multi-update+delete / empty / Sync / Connect / ConnectError / Reset / Remove / Add / UpdateMetadata — over 2-4 targets that share one set of 3, 5 or 9 leaf paths (prefix elements, keyed element, root leaf, origin, deprecated encoding), timestamps around a virtual clock (stale, equal, newer, beyond a future threshold), event-driven emulation on/off, cache.WithServerName in half of the histories, " +
-			"up to 5 STREAM subscribers (one target or \"*\", 6 path shapes) attached at seeded points through subscribe.Server over in-memory streams. After every operation addressed to X every other target's existence, leaves (wire bytes of the stored notifications) and Metadata() values are compared with the state before it, the feed entries of the call must name X only, and Query(\"*\") must equal the union of the per-target queries. " +
-			"Mode concurrent (400 trials quick, 8000 thorough): 2-4 pre-filled targets (3 roots x 60-500 leaves, identical paths), Remove(X) or Reset(X) fired in the middle of a lead subscriber's initial walk or between its target check and its registration (bounded holds at schedule points), while its peer is stalled on its first response (Send gate), while the feed consumer is slow right after a Reset announcement, or at a seeded moment; by seed no periodic refresh (30%), a goroutine looping UpdateMetadata (40%) or that and one looping UpdateSize (30%) with seeded pauses during the whole trial, X's stream reporting Sync/Connect/ConnectError and a few last updates right before the operation; single-target X STREAM (2-3 paths), '*' STREAM, '*' ONCE and other-target STREAM subscribers attached before / while / after; each judged trial is distinct by its sequence of schedule points reached. " +
+			"up to 6 subscribers (STREAM, or POLL in a third of the cases; one target or \"*\", 6 path shapes) attached at seeded points through subscribe.Server over in-memory streams; a POLL subscriber is synced, polled at seeded steps (each answered round must be exactly the cache content it selects) and, after Remove of its target, the next poll trigger — sent at once or later in the history — must end its RPC with OK without any further data of the target (after a re-Add it may also continue with the new content). After every operation addressed to X every other target's existence, leaves (wire bytes of the stored notifications) and Metadata() values are compared with the state before it, the feed entries of the call must name X only, and Query(\"*\") must equal the union of the per-target queries. " +
+			"Mode concurrent (400 trials quick, 8000 thorough): 2-4 pre-filled targets (3 roots x 60-500 leaves, identical paths), Remove(X) or Reset(X) fired in the middle of a lead subscriber's initial walk or between its target check and its registration (bounded holds at schedule points), while its peer is stalled on its first response (Send gate), while the feed consumer is slow right after a Reset announcement, or at a seeded moment; by seed no periodic refresh (30%), a goroutine looping UpdateMetadata (40%) or that and one looping UpdateSize (30%) with seeded pauses during the whole trial, X's stream reporting Sync/Connect/ConnectError and a few last updates right before the operation; single-target X STREAM (2-3 paths), '*' STREAM, '*' ONCE and other-target STREAM subscribers attached before / while / after, and single-target X / '*' POLL subscribers answered once before the operation and triggered once at quiescence (X removed: the RPC must end with OK; otherwise the round must equal the cache); each judged trial is distinct by its sequence of schedule points reached. " +
 			"A history is counted as distinct non-trivial when it contains a Reset of a target that held data leaves and non-initial metadata AND a Remove of a target that held data leaves, each while another target held data leaves; hashed by its operation list.",
 		Assumptions: []string{
 			"all cache calls are made by one goroutine (the collector's discipline: one writer per target); subscribers run concurrently but only read",
